@@ -6,12 +6,12 @@
 /// Check for `assertion`: "assertion failed: c.map(|x| x as u64) == if nl == 0 { None } else { Some(col - 1) }"
 
 #[test]
-fn kani_concrete_playback_c01_q_a1_arbitrary_2_5886799710453215195() {
+fn kani_concrete_playback_c01_q_a1_arbitrary_2_9163038402515125812() {
     let concrete_vals: Vec<Vec<u8>> = vec![
-        // 121
-        vec![121],
-        // 50
-        vec![50],
+        // 97
+        vec![97],
+        // 53
+        vec![53],
     ];
     kani::concrete_playback_run(concrete_vals, c01_q_a1_arbitrary_2);
 }
@@ -21,12 +21,12 @@ fn kani_concrete_playback_c01_q_a1_arbitrary_2_5886799710453215195() {
 /// Check for `cover`: "end"
 
 #[test]
-fn kani_concrete_playback_c01_q_a1_arbitrary_2_8728694456605959268() {
+fn kani_concrete_playback_c01_q_a1_arbitrary_2_10741921944320536418() {
     let concrete_vals: Vec<Vec<u8>> = vec![
-        // 68
-        vec![68],
-        // 50
-        vec![50],
+        // 80
+        vec![80],
+        // 53
+        vec![53],
     ];
     kani::concrete_playback_run(concrete_vals, c01_q_a1_arbitrary_2);
 }
